@@ -122,7 +122,8 @@ def finish_mem(rng, sc):
         gp, un = [], []
         for t in range(sc["nticks"]):
             pc = int(sc["parent"][t]["cur"])
-            ucur = rng.choice([pc, pc // 2 + 4096, 1 << 20, 1 << 30])
+            # the raw protections of the parent and the uncle are added in int64_t (protection_sum): keep the sum in range
+            ucur = rng.choice([pc, pc // 2 + 4096, 1 << 20, 1 << 30]) if pc < (1 << 61) else rng.choice([1 << 20, 1 << 30])
             umn, ulo = prot_fields(rng, ucur)
             if rng.random() < 0.6:
                 ulo = str(ucur // rng.choice([1, 2, 3]))
